@@ -104,7 +104,7 @@ CHECKS = {
                  "negative integer or a multi-byte varint. payload lengths: one case per (page size, length, cell kind); non-trivial = payload not wholly local. Distinct = fingerprint / key."),
         "assumptions": ["system libsqlite3 (3.40.1) validates the builder", "usable size == page size (reserved space is refused by sqlittle, see C15)"],
         "min_nontrivial": {"quick": 1500, "thorough": 8000},
-        "required_classes": ["rec:overflow=true", "rec:widehdr=true", "rec:depth=3", "rec:idxdepth=2", "rec:ps=65536", "lens:ps=512:index-interior", "lens:ps=65536:table-leaf", "rec:sqlite-validated"],
+        "required_classes": ["rec:overflow=true", "rec:widehdr=true", "rec:depth=3", "rec:idxdepth=2", "rec:ps=65536", "lens:ps=512:index-interior", "lens:ps=65536:table-leaf", "rec:sqlite-validated", "rec:in-header-size-stale=true"],
         "timeout": {"quick": 300, "thorough": 1800},
         "jobs": [
             job("records", "c14", ["TestC14Records"], 1200, 12000, 3, 12),
@@ -182,7 +182,7 @@ CHECKS = {
                  "written by SQLite. Non-trivial = every mutation that changes the byte and is not excluded (for re-read: the must-reject ones). Distinct by key (page size, offset, value)."),
         "assumptions": ["system libsqlite3 (3.40.1) writes the WAL/UTF-16 files and validates the base images", "schema format 1 files cannot be produced with this SQLite build (legacy_file_format is a no-op); covered header-only"],
         "min_nontrivial": {"quick": 200000, "thorough": 200000},
-        "required_classes": ["must-reject:magic", "must-reject:read-version", "must-reject:reserved-space", "must-reject:text-encoding", "must-reject:schema-format", "must-reject:page-size", "must-accept:change-counter", "must-accept:user-version", "reread:must-reject", "real:wal-open", "real:utf16le", "real:switch-to-wal"],
+        "required_classes": ["must-reject:magic", "must-reject:read-version", "must-reject:reserved-space", "must-reject:text-encoding", "must-reject:schema-format", "must-reject:page-size", "must-accept:change-counter", "must-accept:user-version", "reread:must-reject", "real:wal-open", "real:utf16le", "real:switch-to-wal", "real:switch-to-wal-two-handles"],
         "timeout": {"quick": 300, "thorough": 1500},
         "jobs": [
             job("enum", "c15", ["TestC15HeaderEnum", "TestC15Mutation"], 1, 1, 4, 8, run="^TestC15HeaderEnum$"),
